@@ -192,6 +192,21 @@ class GaussTilt(GaussRamp):
         return np.where(inside, lp, -np.inf)
 
 
+class GaussEdge(Gauss):
+    """Bounds of large magnitude ([99, 100]^d) with the likelihood peaked exactly on the upper
+    corner: a trained flow proposes points a hair beyond the bounds (tolerances relative to the
+    magnitude of a bound would let them in)."""
+
+    def __init__(self, dims=2, **kw):
+        super().__init__(dims, lo=99.0, hi=100.0, **kw)
+
+    def log_likelihood(self, x):
+        out = np.zeros(x.size)
+        for n in self.names:
+            out = out + (x[n] - 100.0) * (x[n] - 100.0) * (-8.0)
+        return out
+
+
 class GaussOpen(Gauss):
     """Uniform prior whose `log_prior` does NOT vanish outside the bounds (the Model API does
     not require it to: the bounds are enforced by nessai), likelihood peaked beyond the upper
@@ -261,7 +276,10 @@ class Guarded:
             if self.kill_at is not None and self.rows >= self.kill_at:
                 raise KillSignal(self.rows)
             try:
-                ok = model.in_bounds(xa) & np.isfinite(model.log_prior(xa))
+                box = np.ones(xa.size, dtype=bool)
+                for n_ in model.names:
+                    box &= (xa[n_] >= model.bounds[n_][0]) & (xa[n_] <= model.bounds[n_][1])
+                ok = box & np.isfinite(model.log_prior(xa))
             except Exception as e:  # pragma: no cover
                 ok = np.array([False])
                 self.bad.append(f"guard raised {e!r}")
@@ -297,6 +315,8 @@ def make(name="G2", **kw):
         return GaussBA(**kw)
     if name == "G2tilt":
         return GaussTilt(2, **kw)
+    if name == "G2edge":
+        return GaussEdge(2, **kw)
     if name == "G2open":
         return GaussOpen(2, **kw)
     if name == "GW5":
